@@ -65,23 +65,23 @@ func main() {
 // ---------- replay file ----------
 
 type ReplayFile struct {
-	Property  string          `json:"property"`
-	Entry     string          `json:"entry"`
-	Mode      string          `json:"mode"` // explore | sweep
-	Seed      uint64          `json:"seed"`
-	RunSeed   uint64          `json:"run_seed"`
-	Tape      []uint64        `json:"tape"`
-	TapeOrig  int             `json:"tape_len_before_shrinking"`
-	Shrink    int             `json:"shrink_executions"`
-	Violation *core.Violation `json:"violation"`
-	Faults    map[string]int  `json:"faults_fired"`
-	Trace     []string        `json:"trace"`
-	Sample    interface{}     `json:"case"`
+	Property  string            `json:"property"`
+	Entry     string            `json:"entry"`
+	Mode      string            `json:"mode"` // explore | sweep
+	Seed      uint64            `json:"seed"`
+	RunSeed   uint64            `json:"run_seed"`
+	Tape      []uint64          `json:"tape"`
+	TapeOrig  int               `json:"tape_len_before_shrinking"`
+	Shrink    int               `json:"shrink_executions"`
+	Violation *core.Violation   `json:"violation"`
+	Faults    map[string]int    `json:"faults_fired"`
+	Trace     []string          `json:"trace"`
+	Sample    interface{}       `json:"case"`
 	Env       map[string]string `json:"env,omitempty"`
 	// Crash is set when the run kills the process (Go fatal error in the code under test): the run is
 	// re-executed from RunSeed (explore) or Tape (sweep) in a child process and the crash summary compared.
-	Crash     bool              `json:"crash,omitempty"`
-	CrashTape bool              `json:"crash_uses_tape,omitempty"`
+	Crash     bool `json:"crash,omitempty"`
+	CrashTape bool `json:"crash_uses_tape,omitempty"`
 }
 
 type inflightRec struct {
@@ -149,25 +149,28 @@ func violationKey(v *core.Violation) string { return v.Property + "|" + v.Oracle
 // ---------- worker ----------
 
 type ShardOut struct {
-	Evaluations  int               `json:"evaluations"`
-	PerEntry     map[string]int    `json:"per_entry"`
-	NonTrivial   int               `json:"nontrivial"`
-	Sigs         []uint64          `json:"sigs"` // signatures of non-trivial runs (deduplicated, capped)
-	SigsCapped   bool              `json:"sigs_capped"`
-	Faults       map[string]int    `json:"faults"`
-	Probes       map[string]int    `json:"probes"`
-	Steps        int64             `json:"steps"`
-	Events       int64             `json:"events"`
-	Samples      []interface{}     `json:"samples"`
-	Violations   []string          `json:"violations"` // replay file paths
-	SweepDone    map[string]bool   `json:"sweep_done"`
-	SweepCases   map[string]int    `json:"sweep_cases"`
-	ExploreRuns  int               `json:"explore_runs"`
-	Seeds        int               `json:"seeds"`
-	WallS        float64           `json:"wall_s"`
-	SweepWallS   float64           `json:"sweep_wall_s"`
-	ExploreWallS float64           `json:"explore_wall_s"`
-	Harness      string            `json:"harness_error,omitempty"`
+	Evaluations int             `json:"evaluations"`
+	PerEntry    map[string]int  `json:"per_entry"`
+	NonTrivial  int             `json:"nontrivial"`
+	Sigs        []uint64        `json:"sigs"` // signatures of non-trivial runs (deduplicated, capped)
+	SigsCapped  bool            `json:"sigs_capped"`
+	Faults      map[string]int  `json:"faults"`
+	Probes      map[string]int  `json:"probes"`
+	Steps       int64           `json:"steps"`
+	Events      int64           `json:"events"`
+	Samples     []interface{}   `json:"samples"`
+	Violations  []string        `json:"violations"` // replay file paths
+	SweepDone   map[string]bool `json:"sweep_done"`
+	SweepCases  map[string]int  `json:"sweep_cases"`
+	ExploreRuns int             `json:"explore_runs"`
+	// violations seen in a worker that their tape alone does not reproduce in a fresh process; never
+	// reported as violations; if no reproducible violation exists either, the check ends with exit 2
+	Unreproducible []string `json:"unreproducible,omitempty"`
+	Seeds          int      `json:"seeds"`
+	WallS          float64  `json:"wall_s"`
+	SweepWallS     float64  `json:"sweep_wall_s"`
+	ExploreWallS   float64  `json:"explore_wall_s"`
+	Harness        string   `json:"harness_error,omitempty"`
 }
 
 const sigCap = 400000
@@ -236,6 +239,7 @@ func cmdWorker(args []string) int {
 	sigs := map[uint64]bool{}
 	seenViol := map[string]bool{}
 	abandoned := false
+	var unreproducible []string
 	var knownOpen []KnownFinding
 	if ks, err := loadKnown(); err == nil {
 		for _, k := range ks {
@@ -269,7 +273,7 @@ func cmdWorker(args []string) int {
 	}
 	handleViolation := func(mode string, e *core.Entry, runSeed uint64, tape []uint64, r *core.Result) {
 		key := violationKey(r.Violation)
-		if seenViol[key] || len(so.Violations) >= 6 {
+		if seenViol[key] || len(so.Violations) >= 6 || len(unreproducible) >= 8 {
 			return
 		}
 		seenViol[key] = true
@@ -328,9 +332,52 @@ func cmdWorker(args []string) int {
 			best = tape
 			final, _ = runTape(best)
 			if final == nil || final.Violation == nil {
-				so.Harness = fmt.Sprintf("NONDETERMINISM: tape for %s does not reproduce its violation", key)
-				return
+				final = nil
 			}
+		}
+		// A run must be a function of its tape alone. If the code under test keeps state in the process
+		// (a package-level pool or cache that a change introduced), the outcome in this worker can depend on
+		// what earlier runs left behind, and a tape minimised here need not fail in a fresh process.
+		// So the minimised tape is executed once in a fresh process; if the outcome differs, minimisation is
+		// redone from the original tape with every candidate in a process of its own.
+		if !isRace && !isKnown && !r.Abandoned {
+			same := func(a, b *core.Result) bool {
+				return a != nil && b != nil && a.Violation != nil && b.Violation != nil && *a.Violation == *b.Violation
+			}
+			var fresh *core.Result
+			if final != nil {
+				fresh, _ = subprocRun(p.ID, e.Name, best)
+			}
+			if !same(fresh, final) {
+				so.Probes["minimised-in-fresh-processes"]++
+				isoTest := func(c []uint64) (bool, []uint64) {
+					kickWatchdog("shrinking in fresh processes " + e.Name)
+					rr, used := subprocRun(p.ID, e.Name, c)
+					if rr != nil && rr.Violation != nil && rr.Violation.Oracle == orig.Oracle && rr.Violation.Signature == orig.Signature {
+						return true, used
+					}
+					return false, nil
+				}
+				if ok, used := isoTest(tape); ok {
+					best, execs = choice.Shrink(used, 400, maxTime, isoTest)
+					final, _ = subprocRun(p.ID, e.Name, best)
+					again, _ := subprocRun(p.ID, e.Name, best)
+					if !same(final, again) {
+						final = nil
+					}
+				} else {
+					final = nil
+				}
+			}
+		}
+		if final == nil || final.Violation == nil {
+			// Not reportable: there is no replay file that reproduces it. Another run may show the same
+			// violation from its own tape alone, so the key is released; if none does, the worker ends
+			// with a harness error (exit 2), never with a verdict.
+			unreproducible = append(unreproducible, key)
+			delete(seenViol, key)
+			so.Probes["violation-not-reproducible-from-its-tape-alone"]++
+			return
 		}
 		rf := &ReplayFile{Property: p.ID, Entry: e.Name, Mode: mode, Seed: *seed, RunSeed: runSeed, Tape: best, TapeOrig: len(tape), Shrink: execs,
 			Violation: final.Violation, Faults: final.Faults, Trace: final.Trace, Sample: final.Sample, Env: core.ReplayEnv()}
@@ -414,6 +461,7 @@ func cmdWorker(args []string) int {
 	if h := core.HarnessError(); h != "" && so.Harness == "" {
 		so.Harness = h
 	}
+	so.Unreproducible = unreproducible
 	b, _ := json.Marshal(so)
 	if err := os.WriteFile(*out, b, 0o644); err != nil {
 		fmt.Fprintln(os.Stderr, "HARNESS:", err)
@@ -634,8 +682,10 @@ func cmdRunTape(args []string) int {
 	tapeFile := fs.String("tapefile", "", "")
 	seed := fs.Uint64("seed", 0, "")
 	quick := fs.Bool("quick", true, "")
+	replaying := fs.Bool("replaying", false, "")
 	fs.Parse(args)
 	ensureRaceLog()
+	core.SetReplaying(*replaying)
 	p := core.Lookup(*propID)
 	if p == nil {
 		return 2
@@ -677,7 +727,7 @@ func subprocRun(prop, entry string, tape []uint64) (*core.Result, []uint64) {
 	f.Write(b)
 	f.Close()
 	self, _ := os.Executable()
-	cmd := exec.Command(self, "runtape", "-prop", prop, "-entry", entry, "-tapefile", f.Name(), fmt.Sprintf("-quick=%v", core.Quick()))
+	cmd := exec.Command(self, "runtape", "-prop", prop, "-entry", entry, "-tapefile", f.Name(), fmt.Sprintf("-quick=%v", core.Quick()), "-replaying")
 	env := []string{}
 	for _, kv := range os.Environ() {
 		if !strings.HasPrefix(kv, "SIMRUN_RACELOG=") && !strings.HasPrefix(kv, "GORACE=") {
